@@ -182,6 +182,9 @@ func OracleTerminates(prop string, v *View) []Violation {
 	var out []Violation
 	if r.Outcome == "stuck" || r.Outcome == "exhausted" {
 		sh, parts := hangShape(v)
+		if parts == nil {
+			parts = waitsOnStepsThatNeverStart(v)
+		}
 		vv := viol(prop, "no-hang", sh, "run did not return: outcome=%s; producible=%v pending=%v; goroutines: %s", r.Outcome, v.Facts.ProducibleIDs(), keys(v.Facts.Pending), strings.Join(r.Stuck, " | "))
 		vv.Parts = parts
 		vv.Msg += "; outputs wait for: " + strings.Join(parts, ", ")
@@ -310,9 +313,42 @@ func OracleResult(prop string, v *View) []Violation {
 		return nil
 	}
 	if len(f.Producible) > 0 && len(f.RunError) == 0 {
-		return attribute([]Violation{viol(prop, "spurious-error", c.ErrClass, "run failed with %q (class %s) although outputs %v are producible (steps: %s)", c.Err, c.ErrClass, f.ProducibleIDs(), factsSummary(f))})
+		vv := viol(prop, "spurious-error", c.ErrClass, "run failed with %q (class %s) although outputs %v are producible (steps: %s)", c.Err, c.ErrClass, f.ProducibleIDs(), factsSummary(f))
+		vv.Parts = waitsOnStepsThatNeverStart(v)
+		if len(vv.Parts) > 0 {
+			vv.Msg += "; " + strings.Join(vv.Parts, ", ")
+		}
+		return attribute([]Violation{vv})
 	}
 	return nil
+}
+
+// waitsOnStepsThatNeverStart lists the wait-optional references of the outputs to an error-path stage
+// (failed / crashed / deploy_failed) of a step that, by the model, never starts: what it needs is
+// never produced, and nobody tells the engine that the stage cannot occur (known finding KF-C15-1).
+func waitsOnStepsThatNeverStart(v *View) []string {
+	seen := map[string]bool{}
+	for _, o := range v.C.Program.Outputs {
+		ir.Walk(o.E, func(x *ir.Expr) {
+			if x.K != "opt" || x.Tag != "wait-optional" || len(x.Args) == 0 {
+				return
+			}
+			ir.Walk(x.Args[0], func(y *ir.Expr) {
+				if y.K != "ref" || len(y.Path) < 4 || y.Path[0] != "steps" {
+					return
+				}
+				stage := fmt.Sprint(y.Path[2])
+				if stage != "failed" && stage != "crashed" && stage != "deploy_failed" {
+					return
+				}
+				sf := v.Facts.Steps[fmt.Sprint(y.Path[1])]
+				if sf != nil && naturalOutcome(sf) == "never starts" {
+					seen["wait-optional on "+stage+"."+fmt.Sprint(y.Path[3])+" of a step that never starts"] = true
+				}
+			})
+		})
+	}
+	return keys(seen)
 }
 
 func factsSummary(f *ref.Facts) string {
